@@ -111,8 +111,11 @@ func (r *Run) unknownCall(st *State, fr *Frame, f T, args []Val, sig *types.Sign
 		st.Ghost[fmt.Sprintf("res:%s:%d", f.S, i)] = v
 	}
 	var forks []*State
-	if r.panicMatters(st) {
+	if r.panicMatters(st) && !r.declaredTotal(st, fr, f) {
 		p := st.clone()
+		for i := range res {
+			delete(p.Ghost, fmt.Sprintf("res:%s:%d", f.S, i)) // the call did not return on this path
+		}
 		p.Panicking = true
 		p.PanicVal = e.freshConst("cbpanic", SAny)
 		p.Facts["panic.site"] = "callback at " + e.posOf(in)
@@ -124,6 +127,34 @@ func (r *Run) unknownCall(st *State, fr *Frame, f T, args []Val, sig *types.Sign
 	r.setResult(st, fr, dst, res)
 	r.afterCall(st, fr, "dynamic", args, res, sig, in)
 	return forks
+}
+
+// declaredTotal: `total NAME ...` in the block of the calling function — the function values held in these
+// parameters / captured variables are library functions that do not panic (e.g. the stop function of AfterFunc).
+func (r *Run) declaredTotal(st *State, fr *Frame, f T) bool {
+	e := r.e
+	blk := e.cs.Funcs[e.fnName[fr.Fn]]
+	if blk == nil {
+		return false
+	}
+	for _, cl := range blk.All("total") {
+		for _, w := range cl.Words {
+			if cell, ok := fr.Cells[w]; ok {
+				if t, ok := st.Cells[cell].(T); ok && t.S == f.S {
+					e.note("%s: the function value %s is assumed not to panic (total)", e.fnName[fr.Fn], w)
+					return true
+				}
+			}
+			for i, p := range fr.Fn.Params {
+				if p.Name() == w && i < len(fr.Args) {
+					if t, ok := fr.Args[i].(T); ok && t.S == f.S {
+						return true
+					}
+				}
+			}
+		}
+	}
+	return false
 }
 
 func (r *Run) counter(st *State, k string) T {
@@ -264,6 +295,9 @@ func (r *Run) atCall(st *State, fr *Frame, callee string, args []Val, sig *types
 
 func (r *Run) callFunction(st *State, fr *Frame, fn *ssa.Function, binds []Val, args []Val, dst ssa.Value, in ssa.Instruction, cc *ssa.CallCommon) []*State {
 	e := r.e
+	if o := fn.Origin(); o != nil {
+		fn = o // calls inside generic bodies name instantiations; contracts and bodies belong to the generic function
+	}
 	if n, ok := e.fnName[fn]; ok {
 		r.atCall(st, fr, n, args, fn.Signature, in)
 	}
@@ -385,6 +419,9 @@ func (e *Engine) calleeName(cc *ssa.CallCommon) string {
 	}
 	switch f := cc.Value.(type) {
 	case *ssa.Function:
+		if o := f.Origin(); o != nil {
+			f = o
+		}
 		if n, ok := e.fnName[f]; ok {
 			return n
 		}
@@ -405,7 +442,7 @@ func (e *Engine) calleeName(cc *ssa.CallCommon) string {
 // usesPathGhosts: does a clause mention ghost state that is local to one execution of a function body.
 func usesPathGhosts(expr string) bool {
 	for _, g := range []string{"spawned(", "calls(", "lastres(", "lastarg(", "lastsent(", "lastrecv(", "lasterr(", "lastrand(",
-		"icalls(", "ilast(", "atomics(", "apre(", "apost(", "aop(", "panicking(", "nolocks(", "held(", "heldW(", "heldR(", "heldcond(", "mapkey(", "mapidx(", "now(", "atentry(", "nevercancelled(", "captured("} {
+		"icalls(", "ilast(", "calledsince(", "atomics(", "apre(", "apost(", "aop(", "panicking(", "nolocks(", "held(", "heldW(", "heldR(", "heldcond(", "mapkey(", "mapidx(", "now(", "atentry(", "nevercancelled(", "captured("} {
 		if strings.Contains(expr, g) {
 			return true
 		}
@@ -556,6 +593,7 @@ func (r *Run) applyContract(st *State, fr *Frame, fn *ssa.Function, blk *Block, 
 	}
 	e.usedContracts[callee] = true
 	st.Counters["calls:"+callee] = App(SInt, "+", r.counter(st, "calls:"+callee), IntLit(1))
+	st.Ghost["called:"+callee] = True
 	var forks []*State
 	// panics clauses (evaluated in the pre-state)
 	var panicConds []T
@@ -603,6 +641,9 @@ func (r *Run) applyContract(st *State, fr *Frame, fn *ssa.Function, blk *Block, 
 	}
 	res := r.freshResults(st, fn.Signature, "ret_"+callee)
 	e.bindResults(fn, vars, res)
+	for i, v := range res {
+		st.Ghost[fmt.Sprintf("ires:%s:%d", callee, i)] = v
+	}
 	for _, cl := range blk.All("ensures") {
 		x, err := parseSpec(cl.Expr)
 		if err != nil {
